@@ -24,6 +24,7 @@ scenario id up in the registered scenarios and builds Scenario::Log with that en
 the writer side parses the id that AppendScenarioMsg appended (END / BEFORE_SCENARIO_ID / NO_SCENARIO_ID pairing).
 Not decided: ordering under real timing, exactly-once delivery, loss before run-Finished (schedule properties of two
 channels and a subscriber).
+Added after the second seeded round: (R4, extended) the ScenarioId is searched on every span of the event's scope, not on one chosen span; (R6) a received span-close id marks its entry as closed on every path of the collector's drain routine.
 """
 DECLINED = ["exactly-once delivery and no-loss under every timing", "relative order of logs and events on two channels"]
 ASSUMPTIONS = ["tracing's Instrument enters the span on every poll of the instrumented future", "on_close fires when the last handle of a span is dropped"]
